@@ -218,7 +218,7 @@ def reporter(ctx, only=None):
     def classify(f):
         if only and not only(f):
             return
-        sig = {"kind": f["kind"], "engine": f["engine"], "op": f.get("op", ""), "form": f.get("form", "")}
+        sig = {"kind": f["kind"], "engine": f["engine"], "op": f.get("op", ""), "form": f.get("form", ""), "err": f.get("err", "")}
         ctx.report(sig, "behaviour %d (%s) step %d, %s %s: [%s] %s" % (f["id"], f["engine"], f["step"], f.get("op", ""), f.get("form", ""), f["kind"], f["msg"]),
                    {"behaviour": f.get("beh"), "source": f.get("src"), "engine": f["engine"]})
     return classify
